@@ -133,6 +133,10 @@ def run_impl(wntr, wn, durations=None, pickle_between=False):
 
         def check(self, _orig=orig, _calls=calls, _wn=wn):
             _calls.append((self, int(_wn.sim_time)))
+            if len(_calls) > MAX_CHECK_CALLS:
+                # a legitimate run of the generated schedules needs a few thousand calls; a run that does not advance
+                # (e.g. the same instant served again and again) must not hang the check
+                raise RuntimeError("runaway simulation: more than %d control checks, sim_time=%s" % (MAX_CHECK_CALLS, _wn.sim_time))
             return _orig(self)
 
         _c.ControlChecker.check = check
@@ -165,6 +169,10 @@ def run_impl_legs(wntr, wn, durations, pickle_between=False):
 
         def check(self, _orig=orig, _calls=calls, _wn=wn):
             _calls.append((self, int(_wn.sim_time)))
+            if len(_calls) > MAX_CHECK_CALLS:
+                # a legitimate run of the generated schedules needs a few thousand calls; a run that does not advance
+                # (e.g. the same instant served again and again) must not hang the check
+                raise RuntimeError("runaway simulation: more than %d control checks, sim_time=%s" % (MAX_CHECK_CALLS, _wn.sim_time))
             return _orig(self)
 
         _c.ControlChecker.check = check
@@ -182,6 +190,7 @@ def run_impl_legs(wntr, wn, durations, pickle_between=False):
 
 
 RULE_TIMES = []
+MAX_CHECK_CALLS = 60000
 
 
 def gen_schedule(rng, quick=True, rules=True, allow_weird=True):
